@@ -56,8 +56,9 @@ def setupCylindricalGrid(layout: str, constantFile: str = None, **kwargs):
     else:
         constants = get_constants(constantFile)
 
-    for f in dir(constants):
-        val = getattr(constants, f)
+    # Read all values before setting any of them (setting rMin or rMax resets rp)
+    vals = [(f, getattr(constants, f)) for f in dir(constants)]
+    for f, val in vals:
         if not callable(val) and f[0] != '_':
             setattr(constants, f, kwargs.pop(f, val))
 
@@ -152,8 +153,9 @@ def setupFromFile(foldername, constantFile: str = None, **kwargs):
 
     constants = get_constants(constantFile)
 
-    for f in dir(constants):
-        val = getattr(constants, f)
+    # Read all values before setting any of them (setting rMin or rMax resets rp)
+    vals = [(f, getattr(constants, f)) for f in dir(constants)]
+    for f, val in vals:
         if not callable(val) and f[0] != '_':
             setattr(constants, f, kwargs.pop(f, val))
 
